@@ -131,6 +131,8 @@ def check(ctx):
                     bad.append("opaque:%s" % ";".join(a_["other"] + ["%s=%s" % (k2[0][:30], k2[1]) for k2 in a_.get("kind", [])])[:70])
                 elif segs.get("is_ident") == "command":
                     kinds.add("bare")
+                elif segs == {0: "command"} and (lo, hi) == (1, 1):
+                    kinds.add("bare")       # what is_ident("command") tests, spelled out: exactly one segment, and it is `command`
                 elif segs.get(0) == "tauri" and segs.get(1) == "command" and (lo, hi) == (2, 2):
                     kinds.add("qualified")
                 else:
